@@ -319,7 +319,7 @@ func GenInput(t *rapid.T, o GenOpts) Input {
 			tag["broken-file"] = true
 			continue
 		}
-		if o.Symlinks && fi > 0 && in.Files[0].Symlink == "" && rapid.IntRange(0, 9).Draw(t, lbl+".symlink") == 0 {
+		if o.Symlinks && fi > 0 && in.Files[0].Symlink == "" && rapid.IntRange(0, 3).Draw(t, lbl+".symlink") == 0 {
 			// relative target from the link's directory
 			rel, err := filepath.Rel(filepath.Dir(name), in.Files[0].Name)
 			if err == nil {
@@ -393,6 +393,15 @@ func GenInput(t *rapid.T, o GenOpts) Input {
 	in.Config, ctags = GenConfig(t, o.Online, o.MinRuleBlocks, o.CommentPerKind, o.PromFilters)
 	for _, c := range ctags {
 		tag[c] = true
+	}
+	// a check that only applies to the symlink's path: the same rules then carry a problem
+	// (often the most severe one) under the link name that the real file does not have
+	for _, f := range in.Files {
+		if f.Symlink != "" && rapid.IntRange(0, 2).Draw(t, "symlinkRule") > 0 {
+			sev := rapid.SampledFrom([]string{"info", "warning", "bug", "bug", "fatal"}).Draw(t, "symlinkRule.sev")
+			in.Config += "rule {\n  match {\n    path = " + hclStr(strings.ReplaceAll(f.Name, ".", "[.]")) + "\n  }\n  label \"linked\" {\n    required = true\n    severity = " + hclStr(sev) + "\n  }\n}\n"
+			tag["symlink-only-rule"] = true
+		}
 	}
 	for k := range tag {
 		in.Tags = append(in.Tags, k)
@@ -607,7 +616,7 @@ func GenConfig(t *rapid.T, online bool, minBlocks int, commentPerKind, promFilte
 		tags = append(tags, "prom-closed")
 	}
 	if online {
-		if rapid.IntRange(0, 2).Draw(t, "cfg.partial") > 0 {
+		if rapid.IntRange(0, 3).Draw(t, "cfg.partial") > 0 {
 			// main server partially unavailable: the harness' fake answers 504 for the queries whose
 			// expression hashes into the drawn 4-bit mask, the failover URI answers everything
 			mask := rapid.IntRange(1, 14).Draw(t, "cfg.partialMask")
